@@ -1489,7 +1489,7 @@ result_t Condition::create(const string& condName, const map<string, string>& ro
   } else if (circuit.empty()) {
     auto it = rowDefaults.find("circuit");
     if (it != rowDefaults.end()) {
-      zz = it->second;
+      circuit = it->second;
     }
   }
   string valueList = (*row)["pbsb"];
